@@ -1,7 +1,7 @@
 (* C07/Props.v — property-level theorems only. Part A (core level) below; part B (file level: raftfs state file and
    snapshot manager over CrashFS) appends its theorems to this file.  Tags are read by bin/check. *)
 From Coq Require Import List NArith ZArith.
-From BLB Require Import Raft.Core Raft.Wire Raft.Legit Raft.NodeProofs Raft.NodeElect C07.A_Witness C07.A_Repaired C07.A_Proofs.
+From BLB Require Import Raft.Core Raft.Wire Raft.Legit Raft.NodeProofs Raft.NodeElect Raft.NodeMono C07.A_Witness C07.A_Repaired C07.A_Proofs C07.A_Wedge.
 Import ListNotations.
 Open Scope N_scope.
 
@@ -28,6 +28,16 @@ Theorem restart_never_fatal_refuted :
 Proof. exists f10_witness. exact f10_witness_ok. Qed.
 Print Assumptions restart_never_fatal_refuted.
 
+(* [REFUTED] part A, the recovery code's assumption "the log end is never behind the snapshot" fails after a crash on the current code (F10):
+   there is a schedule of legitimate events ending with a crash between two durable mutations after which the restarted
+   node holds a commit index beyond its last persisted index and a snapshot that is not a prefix of its log *)
+Theorem restart_storage_consistent_refuted :
+  exists ops, legit_schedule ops = true /\
+    exists c s, final_state ops = Some c /\ get_node 3 c = Some s /\
+                last_index (n_p s) < n_commit s /\ ~ storage_ok (n_p s).
+Proof. exists f10_prefix. exact f10_state_ok. Qed.
+Print Assumptions restart_storage_consistent_refuted.
+
 (* [FULL] part A, the carved-out version for the repaired start-up (newCore reconciles log and snapshot first): from every surviving
    persistent state with a contiguous 1-based log, i.e. after a crash at any point whatsoever, the repaired newCore
    leaves storage in which the snapshot is a prefix of the log *)
@@ -53,15 +63,50 @@ Theorem acts_after_persist :
   forall s ev st s', n_msgs s = [] -> run_event s ev = Ret (st, s') ->
     Forall (fun m => m_term m = p_term (n_p s') /\ m_from m = n_id s' /\
                      (m_body m = VoteResp true -> p_vote (n_p s') = m_to m)) (n_msgs s').
-Proof. intros s ev st s' H R. destruct (run_event_sum s ev st s' H R) as [_ [M _]]. exact M. Qed.
+Proof. exact acts_after_persist_lemma. Qed.
 Print Assumptions acts_after_persist.
 
 (* [FULL] part A, the repaired start-up keeps the durable term and vote, it only truncates the log *)
 Theorem restart_repaired_keeps_term_and_vote :
   forall id cfg p s', new_core_fixed id cfg p = Ret s' ->
     p_term p <= p_term (n_p s') /\ (p_term (n_p s') = p_term p -> p_vote p <> 0 -> p_vote (n_p s') = p_vote p).
-Proof.
-  intros id cfg p s' H. pose proof (new_core_fixed_pext id cfg p) as P. rewrite H in P.
-  destruct P as [A [B _]]. split; [exact A|]. intros Ht Hv. destruct (B Ht); congruence.
-Qed.
+Proof. exact restart_repaired_keeps_term_and_vote_lemma. Qed.
 Print Assumptions restart_repaired_keeps_term_and_vote.
+
+(* [FULL] part A, each handler equals the ordered list of durable mutations it performs: for every settled node state and every
+   event other than Restart, the persistent state at handler return is exactly the replay of the recorded mutations
+   SaveState, SetVoteFor, SetGUIDFor, FilterGUIDs, LogAppend, LogTruncate, LogTrim, SnapshotCommit, in order, on the
+   persistent state at handler start *)
+Theorem handler_equals_its_durable_mutations :
+  forall s ev st s', ev <> ERestart -> n_muts s = [] -> run_event s ev = Ret (st, s') ->
+    n_p s' = replay (n_p s) (n_muts s').
+Proof. exact handler_equals_its_durable_mutations_lemma. Qed.
+Print Assumptions handler_equals_its_durable_mutations.
+
+(* [REFUTED] part A, "is always able to catch up with its group" fails on the current code for a reason independent of crashes (finding F20):
+   there is a schedule of legitimate events (one message lost, one negative AppEntsResp delayed) after which the leader's
+   nextIndex for a follower is not above its matchIndex although the follower is behind the leader's log *)
+Theorem catch_up_refuted :
+  exists ops, legit_schedule ops = true /\
+    exists c nx mt li, final_state ops = Some c /\ leader_view c 1 3 = Some (nx, mt, li) /\
+                       nx <= mt /\ mt < li /\ (exists s, get_node 1 c = Some s /\ n_role s = Leader).
+Proof. exists f20_witness. exact f20_witness_ok. Qed.
+Print Assumptions catch_up_refuted.
+
+(* [FULL] part A, why that state is a dead end, for every leader state and every peer with nextIndex not above matchIndex: whatever
+   the leader builds for that peer is an entry-less probe strictly below matchIndex *)
+Theorem wedged_leader_only_probes_below_match :
+  forall s p b, wedged p -> get_app_ents s p = Ret (Some b) ->
+    exists pt, b = AppEnts (pr_next p - 1) pt (n_commit s) None /\ pr_next p - 1 < pr_match p \/ pr_next p = 0.
+Proof. exact wedged_sends_only_low_probes. Qed.
+Print Assumptions wedged_leader_only_probes_below_match.
+
+(* [FULL] part A, a follower answers an entry-less AppEnts with Index equal to its prevLogIndex whether it accepts or rejects, and
+   the leader discards every answer whose Index is below matchIndex without changing its state at all *)
+Theorem answers_below_match_are_discarded :
+  (forall s from pi pt cm s', handle_app_ents s from pi pt cm None = Ret s' ->
+      exists m, In m (n_msgs s') /\ m_to m = from /\ exists su hi, m_body m = AppEntsResp su pi hi) /\
+  (forall s from p su ix hi, peer_get from (l_peers s) = Some p -> ix < pr_match p ->
+      handle_app_ents_resp s from su ix hi = Ret s).
+Proof. split; [exact probe_answer_index | exact low_answer_discarded]. Qed.
+Print Assumptions answers_below_match_are_discarded.
